@@ -196,7 +196,6 @@ class HTTPChannel(wasyncore.dispatcher):
                 self._flush_some()
             else:
                 self._flush_exception(self._flush_some, do_close=False)
-        self.request.completed = False
 
     def received(self, data):
         """
